@@ -1001,6 +1001,38 @@ var reservedIDL = map[string]bool{"bool": true, "byte": true, "i8": true, "i16":
 	"service": true, "extends": true, "throws": true, "oneway": true, "include": true, "cpp_include": true, "namespace": true, "cpp_type": true,
 	"required": true, "optional": true, "true": true, "false": true}
 
+// extend gives some services without a base one: the model's generator draws
+// `extends` for a third of the services and only towards services generated
+// before, which leaves most programs without any service hierarchy.  The base
+// is a service the file can name (its own or an included file's) whose own
+// chain does not lead back (no cycle).
+func extend(rt *rapid.T, p *idl.Program) {
+	for _, f := range p.Files {
+		for _, d := range f.DefsOf(idl.KService) {
+			if d.Extends != nil {
+				continue
+			}
+			var cands []*idl.Def
+			for _, g := range append([]*idl.File{f}, f.Includes...) {
+				for _, b := range g.DefsOf(idl.KService) {
+					ok := b != d
+					for x := b; x != nil && ok; x = x.Extends {
+						if x == d {
+							ok = false
+						}
+					}
+					if ok {
+						cands = append(cands, b)
+					}
+				}
+			}
+			if len(cands) > 0 && rapid.IntRange(0, 2).Draw(rt, "addextends") == 0 {
+				d.Extends = rapid.SampledFrom(cands).Draw(rt, "newbase")
+			}
+		}
+	}
+}
+
 // enrich adds throws entries to functions that have none: the model's own
 // generator declares exceptions rarely (one struct-like in five is an
 // exception and half of the functions have no throws clause), and the
@@ -1229,6 +1261,7 @@ func outcomeKind(c *callJ) string {
 func TestCalls(t *testing.T) {
 	rapid.Check(t, func(rt *rapid.T) {
 		p := idl.Gen(rt, modelCfg(rt))
+		extend(rt, p)
 		enrich(rt, p)
 		stressed := false
 		if rapid.IntRange(0, 2).Draw(rt, "stress") == 0 {
